@@ -192,3 +192,40 @@ pub fn dump_games() {
         );
     }
 }
+
+/// family 34: the generic entry point with explicit extra request settings
+pub fn case_generic_extra(rd: &mut Rd) -> R<String> {
+    use gamedig::protocols::types::ExtraRequestSettings;
+    let id = String::from_utf8(rd.bytes16()?.to_vec()).map_err(|_| ())?;
+    let port = rd_opt(rd, |rd| rd.u16())?;
+    let extra = rd_opt(rd, |rd| {
+        let gather_players = rd_opt(rd, rd_toggle)?;
+        let gather_rules = rd_opt(rd, rd_toggle)?;
+        let check_app_id = rd_opt(rd, |rd| Ok(rd.u8()? != 0))?;
+        let hostname = match rd_opt(rd, |rd| Ok(rd.bytes16()?.to_vec()))? {
+            Some(b) => Some(String::from_utf8(b).map_err(|_| ())?),
+            None => None,
+        };
+        let protocol_version = rd_opt(rd, |rd| rd.i32())?;
+        Ok(ExtraRequestSettings {
+            hostname,
+            protocol_version,
+            gather_players,
+            gather_rules,
+            check_app_id,
+        })
+    })?;
+    let ts = rd_tsettings(rd)?;
+    let script = rd_script(rd)?;
+    let ts = match ts {
+        Ok(t) => t,
+        Err(e) => return Ok(format!("{e}|")),
+    };
+    let game = match gamedig::GAMES.get(id.as_str()) {
+        Some(g) => g,
+        None => return Ok("NO-SUCH-GAME".into()),
+    };
+    Ok(run_scripted(script, show_generic, || {
+        gamedig::games::query::query_with_timeout_and_extra_settings(game, &IP, port, ts, extra)
+    }))
+}
